@@ -79,6 +79,37 @@ async def sk_delete_restart_recreate(hp, w, rnd, ctx):
     await w.observe()
 
 
+async def sk_delete_folder_with_stray_files_recreate(hp, w, rnd, ctx):
+    """The MH folder of a mailbox holds files that are not messages (what
+    `rmm` leaves behind, an editor's backup, a dot file) when it is deleted:
+    the name created again is a new incarnation all the same -- larger
+    UIDVALIDITY, UIDs from the start, nothing of the old one."""
+    import os
+
+    a = w.session()
+    b2 = w.session()
+    for nm in ("work", "deep/leaf"):
+        await w.op_create(a, nm)
+        for i in range(3):
+            await w.op_append(a, nm, flags=["\\Seen"])
+        await w.op_select(b2, nm)
+        await w.op_fetch(b2, [1, 2, 3], "UID FLAGS")
+        await w.op_select(b2, "INBOX")
+    await w.observe()
+    for nm, strays in (("work", [",2", "notes.txt"]), ("deep/leaf", [".hidden", "#3#"])):
+        for s in strays:
+            with open(os.path.join(str(w.rig.maildir), nm, s), "w") as f:
+                f.write("Subject: not a message\n\nleft behind\n")
+        w.stats["stray_files_in_deleted_folder"] += len(strays)
+        await w.op_delete(a, nm)
+        await w.op_create(a, nm)
+        await w.op_append(a, nm)
+        await w.op_append(a, nm)
+        await w.observe()
+    await w.restart()
+    await w.observe()
+
+
 async def sk_expunge_all_restart_deliver(hp, w, rnd, ctx):
     a = w.session()
     for i in range(3):
@@ -113,7 +144,7 @@ async def sk_rename_then_refill(hp, w, rnd, ctx):
 class C02(HistProp):
     prop = PROP
     names = ["INBOX", "other", "arch"]
-    skeletons = [sk_expunge_last_then_append, sk_delete_recreate, sk_expunge_all_restart_deliver, sk_rename_then_refill, sk_delete_restart_recreate]
+    skeletons = [sk_expunge_last_then_append, sk_delete_recreate, sk_expunge_all_restart_deliver, sk_rename_then_refill, sk_delete_restart_recreate, sk_delete_folder_with_stray_files_recreate]
     weights = {"append": 12, "store_del": 9, "expunge": 8, "uid_expunge": 4, "copy": 6, "move": 5, "deliver": 6, "restart": 2, "create": 2, "delete": 2,
                "rename": 1, "rename_inbox": 1, "advance": 4, "idle": 1, "fetch_body": 1, "store": 2}
     opts = {"create_names": ["other", "arch", "arch/sub", "tmp"], "rename_targets": ["moved", "arch/moved", "deep/er", "saved"]}
